@@ -39,6 +39,13 @@ structure MinifyCoreOk (kept : List σ) (syms : List α) (trans : List (σ × Li
   accepts : ∀ w, (minifyCore kept syms trans init finals pick).accepts w =
     mfin finals (mrun kept trans (some init) w)
 
+/-- C05's guarantee for every admissible call of `_minify` (to be discharged by
+`minifyCore_accepts` / `minifyCore_wf` / `minifyCore_pyShape` + `hopcroft_correct`). -/
+def MinifyGuarantee : Prop :=
+  ∀ (σ α : Type) [DecidableEq σ] [DecidableEq α] (kept : List σ) (syms : List α)
+    (trans : List (σ × List (α × σ))) (init : σ) (finals : List σ) (pick : List Nat → Nat),
+    MinifyCall kept syms trans init finals → MinifyCoreOk kept syms trans init finals pick
+
 theorem minifyCore_syms (kept : List σ) (syms : List α) (trans : List (σ × List (α × σ))) (init : σ)
     (finals : List σ) (pick : List Nat → Nat) :
     (minifyCore kept syms trans init finals pick).syms = syms := by
